@@ -150,6 +150,8 @@ impl<K: Eq + Ord + Default, V: Default, const MAX_HEIGHT: usize> SkipList<K, V, 
         for idx in 0..height {
             'lockfree_looping: loop {
                 node_ptr::set_next(x, idx, obs[idx]);
+                #[cfg(any(kani, rescrv_blue_verif))]
+                verif_harness::yield_point();
                 if node_ptr::cas_next(prev[idx], idx, obs[idx], x) {
                     break 'lockfree_looping;
                 }
@@ -191,6 +193,10 @@ impl<K: Eq + Ord + Default, V: Default, const MAX_HEIGHT: usize> SkipList<K, V, 
 
     fn random_height() -> usize {
         const BRANCHING: u8 = 4;
+        #[cfg(any(kani, rescrv_blue_verif))]
+        if let Some(height) = verif_harness::scripted_height(MAX_HEIGHT) {
+            return height;
+        }
         let mut height = 1usize;
         let mut rng = rand::thread_rng();
         while height < MAX_HEIGHT && rng.r#gen::<u8>() % BRANCHING == 0 {
@@ -1218,3 +1224,7 @@ mod tests {
         guacamole(7762509103363396504)
     }
 }
+
+#[cfg(any(kani, rescrv_blue_verif))]
+#[path = "/verif/hk/skipfree/mod.rs"]
+mod verif_harness;
